@@ -66,6 +66,7 @@ func main() {
 		r := rand.New(rand.NewSource(seed))
 		s.gen(r, n, func(l string) { fmt.Fprintln(w, l) })
 	case "run":
+		flushEach := os.Getenv("VERIF_FLUSH") != ""
 		st := newState()
 		sc := bufio.NewScanner(os.Stdin)
 		sc.Buffer(make([]byte, 1<<20), 1<<26)
@@ -103,6 +104,9 @@ func main() {
 				continue
 			}
 			fmt.Fprintf(w, "%s\t%s\n", line, safeRun(rn, st, f[1:]))
+			if flushEach {
+				w.Flush()
+			}
 		}
 		for _, h := range resetHooks {
 			h(st)
